@@ -105,8 +105,10 @@ def sta_lta_clause(cl, rng, n, replay):
         if "error" in status or "razor" in status:
             cl.skipped += 1
             continue
+        # "records: iterable": a list, a tuple, or something that can be walked through once only (an iterator, a generator)
+        given = [recs, tuple(recs), iter(recs), (r for r in recs)][j % 4]
         try:
-            out = hvsrpy.sta_lta_window_rejection(recs, sta_seconds=sta, lta_seconds=lta, min_sta_lta_ratio=mn, max_sta_lta_ratio=mx, components=comps, hvsr=hv)
+            out = hvsrpy.sta_lta_window_rejection(given, sta_seconds=sta, lta_seconds=lta, min_sta_lta_ratio=mn, max_sta_lta_ratio=mx, components=comps, hvsr=hv)
         except Exception as ex:
             cl.fail("hvsrpy.window_rejection.sta_lta_window_rejection", f"{type(ex).__name__}: {ex}", signature="stalta:exception")
             return
